@@ -257,6 +257,38 @@ def h_roundtrip(pat: int, llen: int, prof: int) -> bool:
     return pos == len(toks) and same(ref, _norm(S, x), acc) and acc[0] == 0
 
 
+def h_copy_reserialise(pat: int, llen: int, prof: int) -> bool:
+    """
+    pre: 0 <= pat < len(PATS) and 0 <= llen < 6 and (HAS_LIST or llen == 1) and 0 <= prof <= 2
+    post: __return__
+    """
+    # a (shallow) copy of a metadata object - what make_part_file, merge and pf[i] serialise - is written exactly like
+    # the original: same fields, same wire types (the i32 / i32list markers travel with the copy)
+    ints = profile(prof)
+    x = build_value(pat, ints, llen)
+    fp = to_fp(S, x)
+    out = rt.TokIO()
+    NS["write_thrift"](fp, out)
+    cp = thrift_lift.ThriftObject(S, fp).copy()
+    out2 = rt.TokIO()
+    NS["write_thrift"](cp.data, out2)
+    acc = [0]
+    return same_tokens(out2.toks, list(out.toks), acc) and acc[0] == 0 and cp.data is not fp
+
+
+def replay_h_copy_reserialise(pat, llen, prof):
+    import copy
+    from fastparquet.cencoding import ThriftObject
+    x = build_value(pat, profile(prof), llen)
+    t = ThriftObject(S, to_fp(S, x))
+    a, b = bytes(t.to_bytes()), bytes(copy.copy(t).to_bytes())
+    if a != b:
+        return True, "%s: a copy serialises to different bytes than the original (%d vs %d bytes; first difference " \
+                     "at %d) for x=%r" % (S, len(b), len(a), next((i for i, (p, q) in enumerate(zip(a, b)) if p != q),
+                                                                   min(len(a), len(b))), x)
+    return False, "copy serialises identically"
+
+
 def h_roundtrip_full(llen: int, prof: int) -> bool:
     """
     pre: 0 <= llen < 3 and 0 <= prof <= 2
